@@ -21,7 +21,11 @@ ASSUMPTIONS = [
   "filters are compared through the decidable specification only",
   "phase monotonicity is read as: stage index non-decreasing in the observation count, other arguments fixed (DESIGN 7.0)",
   "'never modifies its inputs' is decided by deep comparison before/after every implementation call (runtime check, not a theorem)",
-  "finite values (NaN/inf are removed by the callers before the filters); SPE budget >= 1 and counts >= 0 as the view guarantees",
+  "finite values (NaN/inf are removed by the callers before the filters); counts >= 0; the Parzen-estimator selector itself needs a budget >= 1 - "
+  "that the request view supplies one for EVERY request (no budget, budget 0 as a Python int or a NumPy integer, positive budget) is "
+  "C14_spe_view_budget / C14_spe_view_phase_total on Model.Phases.spe_view_budget, tied to the real SPENextPoints.view by the correspondence",
+  "a Parzen-estimator request with budget 0 is read as a request without a budget (scheduled on 50 observations per parameter, the code's `or`); "
+  "requests hold at least one observation (View.__init__ cannot be built on an empty history) and at least one parameter",
 ]
 TRUSTED = ["tools/props/C14.py case generator, RNG scripting layer and the Q-literal printer", "Model/PhasesCorr.v check function"]
 
@@ -208,6 +212,81 @@ def build_request_view(inp):
   return v, [bool(x) for x in fails]
 
 
+def spe_budget_value(inp):
+  """the observation_budget object of a Parzen-estimator request: absent (None), a Python int or a NumPy integer"""
+  t = inp["obtype"]
+  if t == "none":
+    return None
+  return {"int": int, "int64": numpy.int64, "int32": numpy.int32}[t](inp["ob"])
+
+
+def spe_point(comps, rng):
+  return [rng.random() * (c["elements"][1] - c["elements"][0]) + c["elements"][0] if c["var_type"] == "double"
+          else float(rng.randint(c["elements"][0], c["elements"][1])) if c["var_type"] == "int" else float(rng.choice(c["elements"]))
+          for c in comps]
+
+
+def run_spe_view(inp):
+  """The real SPENextPoints(params).view() of a request with `c` observations of which `f` failed, the budget object of
+  spe_budget_value and the given parameters.  Only the two suggestion generators are stubbed (they receive the phase);
+  get_experiment_phase is wrapped, not replaced, so that the budget the view hands to it is recorded."""
+  from libsigopt.aux.adapter_info_containers import DomainInfo, MetricsInfo, PointsContainer
+  from libsigopt.views.rest import spe_next_points as spe
+  comps, n, nf = copy.deepcopy(inp["comps"]), inp["c"], inp["f"]
+  d = len(comps)
+  rng = _pyrandom.Random(inp.get("data_seed", 0))
+  pts = numpy.array([spe_point(comps, rng) for _ in range(n)], dtype=float).reshape(n, d)
+  vals = numpy.array([[float(rng.randint(-20, 20))] for _ in range(n)], dtype=float).reshape(n, 1)
+  fails = numpy.array([i < nf for i in range(n)], dtype=bool)
+  rng.shuffle(fails)
+  ob = spe_budget_value(inp)
+  mi = MetricsInfo(requires_pareto_frontier_optimization=False, observation_budget=ob, user_specified_thresholds=[None],
+                   objectives=["minimize"], optimized_metrics_index=[0], constraint_metrics_index=[])
+  params = dict(domain_info=DomainInfo(constraint_list=[], domain_components=comps), num_to_sample=1, tag={}, metrics_info=mi, task_options=[],
+                points_sampled=PointsContainer(points=pts, values=vals, value_vars=numpy.zeros_like(vals), failures=fails),
+                points_being_sampled=PointsContainer(points=numpy.zeros((0, d))))
+  calls, served = [], []
+
+  class Stubbed(spe.SPENextPoints):
+    def create_random_suggestions(self, num_to_sample):
+      served.append(("random", None, None))
+      return {}
+
+    def create_spe_suggestions(self, num_to_sample, phase, progress):
+      served.append(("spe", phase, progress))
+      return {}
+
+  real = spe.get_experiment_phase
+
+  def wrapped(budget, observation_count, failure_count):
+    r = real(budget=budget, observation_count=observation_count, failure_count=failure_count)
+    calls.append((budget, observation_count, failure_count, r))
+    return r
+
+  spe.get_experiment_phase = wrapped
+  try:
+    with _quiet():
+      v = Stubbed(params)
+      v.view()
+  finally:
+    spe.get_experiment_phase = real
+  if mi.observation_budget is not ob or len(params["points_sampled"].points) != n:
+    raise InputModified("SPENextPoints modified the request's metrics_info / points_sampled")
+  names = {id(spe.INITIALIZATION_PHASE): "PInit", id(spe.SKO_PHASE): "PSko", id(spe.COMPLETION_PHASE): "PCompletion"}
+  if len(calls) != 1 or len(served) != 1:
+    raise AssertionError(f"the view called the selector {len(calls)} times and a suggestion generator {len(served)} times")
+  budget, count, nfail, (phase, progress) = calls[0]
+  tag = v.tag.get("spe_phase")
+  if id(tag) not in names or tag is not phase:
+    raise AssertionError("the phase tag of the response is not the selector's phase")
+  if (served[0][0] == "random") != (names[id(phase)] == "PInit") or (served[0][0] == "spe" and (served[0][1] is not phase or not (served[0][2] is progress))):
+    raise AssertionError("the suggestion generator does not match the selected phase / progress")
+  if int(count) != n or int(nfail) != nf:
+    raise AssertionError(f"the view counted {count} observations / {nfail} failures for a request with {n} / {nf}")
+  integral = isinstance(budget, (int, numpy.integer)) and not isinstance(budget, bool)
+  return dict(phase=names[id(phase)], progress=float(progress), budget=int(budget) if integral else repr(budget), dim=d)
+
+
 def run_impl(kind, inp):
   """Run the implementation on one input; returns the observable output (plain python data)."""
   mm = _mm()
@@ -232,6 +311,8 @@ def run_impl(kind, inp):
     r = snp.identify_search_phase(inp["b"], inp["c"], inp["o"], inp["f"])
     names = {snp.SEARCH_INITIALIZATION_PHASE: "SInit", snp.SEARCH_EXPLOITATION_PHASE: "SExploit", snp.SEARCH_EXPLORE_RESOLVE_PHASE: "SResolve"}
     return dict(phase=names[r])
+  if kind == "speview":
+    return run_spe_view(inp)
   if kind in ("spe", "solver"):
     from libsigopt.views.rest import spe_next_points as spe
     names = {id(spe.INITIALIZATION_PHASE): "PInit", id(spe.SKO_PHASE): "PSko", id(spe.COMPLETION_PHASE): "PCompletion"}
@@ -334,6 +415,14 @@ def _near(x, ts, zero_ok=True):
   return False
 
 
+def spe_effective_budget(inp):
+  """the budget a Parzen-estimator request is scheduled on, as documented: its own budget, or - when none was given (None; a
+  zero budget is no budget) - the phantom budget of 50 observations per parameter"""
+  if inp["obtype"] != "none" and inp["ob"] >= 1:
+    return inp["ob"]
+  return 50 * len(inp["comps"])
+
+
 def margin_discard(kind, inp):
   if kind == "request":
     return margin_discard("view", dict(b=inp["b"], c=inp["c"], f=inp["f"], o=inp["o"] or 0, thr=request_flag(inp)))
@@ -350,6 +439,8 @@ def margin_discard(kind, inp):
           x = 100 * (fs - lo) / (hi - lo)
           return abs(x - round(x)) < MARGIN
     return False
+  if kind == "speview":
+    return margin_discard("spe", dict(b=spe_effective_budget(inp), c=inp["c"], f=inp["f"]))
   if kind == "spe":
     b, c, f = inp["b"], inp["c"], inp["f"]
     return (_near(Fr(c - f, b), [Fr(15, 100), Fr(75, 100)]) or _near(Fr(c, b), [Fr(30, 100)])
@@ -507,14 +598,42 @@ def gen_request(rng):
   return dict(rp=rp, b=b, c=c, f=f, o=o, opt=opt, con=con, thr=thr, pick=rng.random() < 0.5, us=gen_draws(rng), data_seed=rng.randint(0, 10**6))
 
 
+def gen_spe_request(rng):
+  """a Parzen-estimator request: the budget absent, zero (Python int or NumPy integer) or positive (either type); 1-3 parameters
+  of any type (the phantom budget counts parameters, not one-hot columns); observation counts spread over all phases of the
+  effective budget and one observation either side of its documented boundaries; failures none / few / most / all"""
+  comps = []
+  for _ in range(rng.randint(1, 3)):
+    t = rng.choice(["double", "double", "int", "categorical"])
+    comps.append(dict(var_type=t, elements=[0.0, 1.0] if t == "double" else ([0, 9] if t == "int" else [1, 2, 3][:rng.randint(2, 3)])))
+  obtype = rng.choice(["none", "none", "int", "int", "int64", "int64", "int32"])
+  zero = obtype != "none" and rng.random() < 0.55
+  ob = None if obtype == "none" else (0 if zero else rng.choice([1, 2, rng.randint(3, 30), rng.randint(20, 150)]))
+  inp = dict(ob=ob, obtype=obtype, comps=comps)
+  eff = spe_effective_budget(inp)
+  style = rng.choice(["spread", "spread", "boundary", "first"])
+  if style == "spread":
+    c = int(rng.uniform(0, 1.15) * eff)
+  elif style == "boundary":
+    c = eff * rng.choice([15, 30, 75]) // 100 + rng.choice([-1, 0, 1, 2])
+  else:
+    c = rng.randint(1, 3)
+  c = max(1, min(c, 200))
+  f = rng.choice([0, 0, rng.randint(0, max(0, c // 8)), rng.randint(0, c), max(0, c - rng.randint(0, 2)), c])
+  inp.update(c=c, f=min(f, c), data_seed=rng.randint(0, 10**6))
+  return inp
+
+
 def gen_case(rng):
-  kind = rng.choice(["mm"] * 5 + ["flag", "request", "request", "request"] + ["search"] * 2 + ["spe"] * 2 + ["solver", "weights", "weights", "epsilon", "info", "info", "infoerr",
+  kind = rng.choice(["mm"] * 5 + ["flag", "request", "request", "request"] + ["search"] * 2 + ["spe"] * 2 + ["speview"] * 3 + ["solver", "weights", "weights", "epsilon", "info", "info", "infoerr",
                      "view", "view", "filter_gp", "filter_gp", "filter_gp", "filter_spe", "filter_spe", "filter_spe", "exceeds", "augment", "augment"])
   if kind == "flag":
     opt, con, thr = gen_layout(rng, rng.choice([0, 1, 2, 2, 3]))
     return kind, dict(opt=opt, con=con, thr=thr)
   if kind == "request":
     return kind, gen_request(rng)
+  if kind == "speview":
+    return kind, gen_spe_request(rng)
   if kind in ("mm", "search"):
     b, c, f, o = gen_counts(rng)
     inp = dict(b=b, c=c, f=f, o=o)
@@ -544,7 +663,7 @@ def gen_case(rng):
     return kind, dict(label=rng.choice(["CONVEX_COMBINATION_RANDOM_SPREAD", "CONVEX_COMBINATION_SEQUENTIAL", "EPSILON_CONSTRAINT_OPTIMIZE_0",
                                         "EPSILON_CONSTRAINT_OPTIMIZE_1"]), kw=None, pick=rng.random() < 0.5, us=gen_draws(rng))
   if kind == "view":
-    b = rng.choice([rng.randint(1, 40), rng.randint(20, 120)])
+    b = rng.choice([rng.randint(0, 40), rng.randint(20, 120), 0])      # a zero budget is a budget (the divisor is then max(o, 1))
     c = rng.randint(1, min(b + 5, 60))
     f = rng.randint(0, min(c - 1, c // 2 + 1)) if c > 1 else 0
     return kind, dict(rp=rng.random() < 0.85, thr=rng.random() < 0.5, b=b, c=c, f=f, o=rng.randint(0, 3), pick=rng.random() < 0.5,
@@ -606,6 +725,9 @@ def coq_case(kind, inp, out):
     return f"CSearch {z(inp['b'])} {z(inp['c'])} {z(inp['o'])} {z(inp['f'])} {out['phase']}"
   if kind == "spe":
     return f"CSpe {z(inp['b'])} {z(inp['c'])} {z(inp['f'])} {out['phase']} {C.qlit(out['progress'])}"
+  if kind == "speview":
+    return (f"CSpeView {C.optlit(inp['ob'], lambda b: z(b) + '%Z')} {z(out['dim'])} {z(inp['c'])} {z(inp['f'])} {z(out['budget'])} "
+            f"{out['phase']} {C.qlit(out['progress'])}")
   if kind == "solver":
     return f"CSolver {inp['phase']} {C.qlit(inp['progress'])} {C.qlit(inp['u'])} {C.qlit(out['gamma'])} {C.qlit(out['pf'])}"
   if kind == "weights":
@@ -643,6 +765,9 @@ def branch_of(kind, inp, out):
     return f"mm:{out['label']}"
   if kind in ("search", "spe"):
     return f"{kind}:{out['phase']}"
+  if kind == "speview":
+    b = "no-budget" if inp["obtype"] == "none" else (("zero-budget" if inp["ob"] == 0 else "positive-budget") + ":" + inp["obtype"])
+    return f"speview:{b}:{out['phase']}"
   if kind == "solver":
     return f"solver:{inp['phase']}"
   if kind in ("weights", "epsilon"):
@@ -672,7 +797,7 @@ def branch_of(kind, inp, out):
 def nontrivial(kind, inp, out):
   if kind == "mm":
     return out["label"] != "INITIALIZATION"
-  if kind in ("search", "spe"):
+  if kind in ("search", "spe", "speview"):
     return out["phase"] not in ("SInit", "PInit")
   if kind in ("filter_gp", "filter_spe"):
     return any(inp["fails"]) and not all(inp["fails"])
@@ -707,6 +832,10 @@ def correspondence(ctx):
       if len(dis) > 20:
         break
       continue
+    if kind == "speview" and not (isinstance(out["budget"], int) and math.isfinite(out["progress"])):
+      dis.append(dict(what="C14 speview: the budget handed to the selector is not an integer or the served progress is not finite",
+                      kind=kind, input=inp, observed=out))
+      continue
     if kind == "infoerr" and out.get("error") != "KeyError":
       dis.append(dict(what="C14 infoerr: a phase that reads its fraction accepted empty kwargs", kind=kind, input=inp, observed=out))
       continue
@@ -728,7 +857,9 @@ def correspondence(ctx):
   return dict(evaluations=len(cases), distinct_nontrivial=nontriv,
               rule="integer budgets/counts of six styles (small, exact documented boundaries +-1, mid, tiny budget, failures above the budget, "
                    "up to 3e12), both threshold flags; fractions dyadic k/1024, mid-cell decimals, end points, out of range (fallback draw); "
-                   "real View objects for the wiring, incl. requests whose optimised / constraint / stored metrics sit in any column order with thresholds "
+                   "real SPENextPoints views (suggestion generation stubbed) on requests with no / zero (int, int64, int32) / positive budgets, 1-3 parameters "
+                   "of any type, counts across all phases of the effective budget and either side of its boundaries, failures none to all; "
+                   "real View objects for the wiring (budgets from 0), incl. requests whose optimised / constraint / stored metrics sit in any column order with thresholds "
                    "(None or a number) on any subset of the columns, counts one observation either side of every documented boundary and "
                    "inside (0.55, 0.65], open suggestions present / zero / absent; the real MetricsInfo flag for 0..3 optimised columns; "
                    "filters on n<=10 rows of small integers with forced ties, dyadic weights/epsilon, every mode "
@@ -923,6 +1054,24 @@ def oracle(kind, inp):
     if out["phase"] != want or abs(out["progress"] - float(sp)) > 1e-12 * max(1.0, abs(float(sp))):
       return _fail(kind, "SPE phase / progress is not the documented one", inp, out, dict(phase=want, progress=float(sp)), text)
     return None
+  if kind == "speview":
+    # totality first: a phase was served (exceptions are reported above) on a finite progress; then the documented schedule at the
+    # request's own budget, or at 50 observations per parameter when it has none (None or zero)
+    if not math.isfinite(out["progress"]) or not isinstance(out["budget"], int) or out["budget"] < 1:
+      return _fail(kind, "no budget >= 1 reaches the selector: the served progress is not a finite fraction", inp, out, "a phase on a finite progress",
+                   "totality over all budgets incl. none and zero")
+    if margin_discard(kind, inp):
+      return None
+    b, c, f = spe_effective_budget(inp), inp["c"], inp["f"]
+    sp, tp, prop = Fr(c - f, b), Fr(c, b), 1 - Fr(f, 1 + c)
+    if sp < Fr(15, 100) and not (tp > Fr(30, 100) and prop > Fr(1, 10)):
+      want = "PInit"
+    else:
+      want = "PSko" if sp < Fr(75, 100) else "PCompletion"
+    if out["phase"] != want or not (abs(out["progress"] - float(sp)) <= 1e-12 * max(1.0, abs(float(sp)))):
+      return _fail(kind, "the phase served by the request view is not the documented one at the request's budget (50 per parameter when it has none)",
+                   inp, out, dict(phase=want, progress=float(sp), budget=b), text)
+    return None
   if kind == "solver":
     if inp["phase"] == "PSko":
       g = 0.1 - (inp["progress"] - 0.15) / 0.6 * 0.04
@@ -1020,9 +1169,9 @@ def oracle_monotone(inp):
   """Sweep the observation count with everything else fixed: the phase walks forward through the documented order."""
   sel = inp["selector"]
   pos, prev = 0, None
-  order = dict(mm=STAGES, search=["SInit", "SExploit", "SResolve"], spe=["PInit", "PSko", "PCompletion"])[sel]
+  order = dict(mm=STAGES, search=["SInit", "SExploit", "SResolve"], spe=["PInit", "PSko", "PCompletion"], speview=["PInit", "PSko", "PCompletion"])[sel]
   for c in range(inp["c0"], inp["c0"] + inp["steps"] * inp["stride"], inp["stride"]):
-    one = dict(b=inp["b"], c=c, f=inp["f"], o=inp["o"], thr=inp.get("thr", False))
+    one = dict(inp["base"], c=c) if sel == "speview" else dict(b=inp["b"], c=c, f=inp["f"], o=inp["o"], thr=inp.get("thr", False))
     try:
       out = run_impl(sel, one)
     except Exception as e:
@@ -1038,7 +1187,14 @@ def oracle_monotone(inp):
 
 
 def gen_monotone(rng):
-  sel = rng.choice(["mm", "mm", "search", "spe"])
+  sel = rng.choice(["mm", "mm", "search", "spe", "speview"])
+  if sel == "speview":       # the same sweep through the real request view: budgets absent / zero / positive, failures fixed
+    base = gen_spe_request(rng)
+    eff = spe_effective_budget(base)
+    base["f"] = rng.choice([0, 0, 1, min(3, eff)])
+    steps = rng.randint(10, 40)
+    stride = max(1, min(eff, 180) // steps + rng.choice([0, 1]))
+    return "monotone", dict(selector=sel, base=base, c0=max(1, base["f"]), steps=steps, stride=stride)
   b, _, f, o = gen_counts(rng)
   if sel == "spe":
     b = max(b, 1)
@@ -1110,7 +1266,8 @@ def replay(ctx, payload):
 
 LEVEL_TEXT = ("Coq theorems on an executable model of the three phase selectors, the weight/epsilon tables, "
               "form_multimetric_info_from_phase, MetricsInfo.has_optimized_metric_thresholds and View.form_multimetric_info (request level: "
-              "which threshold entries are consulted), the six filter functions, both dispatchers and the SPE failure "
+              "which threshold entries are consulted), the budget SPENextPoints.view hands to its selector (none / zero / positive: always >= 1, "
+              "the phantom budget 50 x parameters when the request's is missing or zero), the six filter functions, both dispatchers and the SPE failure "
               "augmentation: totality (divisor >= 1), the phase table, monotonicity of the stage in the observation count for all integers, "
               "fraction in (0,1], weights/epsilon in [0.1,0.9] summing to 1 for every fraction, draw and Halton table meeting its contract, "
               "aligned output lengths and the right metric columns per mode; the model is tied to the code by exact differential runs "
